@@ -4,8 +4,9 @@
     (2) every connection's packet log begins with exactly one CONNECT,
     (3) the logged back-off exponents are the numbers of consecutive failures since the last
         accepted CONNACK (so, with C09a, the real waits are `Backoff.run base max attempts`),
-    (4) what happens after Disconnect, phase by phase — including the two phases in which the MODEL
-        still dials afterwards (counterexamples at the end of the file).
+    (4) after Disconnect, in every phase: no new dial and no new connection (the Connect in progress
+        may finish); only Disconnect BEFORE Connect (`.idle`) still allows the one dial the Go loop
+        makes before it first looks at `disconnected`.
   Helper lemmas: `MqttVerif/Proofs/RetryLoop.lean`.
 -/
 import MqttVerif.Proofs.RetryLoop
@@ -184,49 +185,87 @@ theorem no_dial_after_exit (w : World) (evs' : List Ev) (h : w.phase = .exited) 
       (evs'.foldl step w).conns.length = w.conns.length :=
   exited_foldl evs' w h
 
-/-- (4) after Disconnect the loop never dials again — the form that is true of the model:
-    from `.exited` unconditionally; from `.connackGate k` / `.up k` as long as the pending Connect does
-    not FAIL (no `.connackRefused` / `.connackNever` event): the one Connect attempt in progress may
-    finish, no new dial starts, no new connection is created. (`.idle` and a failing CONNACK: see the
-    counterexamples below.) -/
+/-- The general statement, for ANY stopped world and ANY later events: `stopped` stays, and the loop
+    makes at most `dialBudget phase` more dials and at most `connBudget phase` more connections, where
+      dialBudget = 1 in `.idle`, 0 otherwise;  connBudget = 1 in `.idle` / `.dialGate`, 0 otherwise. -/
+theorem stopped_budget (w : World) (evs' : List Ev) (hs : w.stopped = true) : let w' := evs'.foldl step w
+    w'.stopped = true ∧
+    w.dials ≤ w'.dials ∧ w'.dials ≤ w.dials + dialBudget w.phase ∧
+    w.conns.length ≤ w'.conns.length ∧ w'.conns.length ≤ w.conns.length + connBudget w.phase := by
+  obtain ⟨h1, h2, h3, h4, h5⟩ := stopped_foldl evs' w hs
+  exact ⟨h1, h2, by omega, h3, by omega⟩
+
+/-- (4) after Disconnect the loop never dials again: in every phase but `.idle`, for all later events
+    (refused / absent / accepted CONNACKs, dial results, peer closes, …), `dials` stays; the number of
+    connections stays too, except that a stopped loop standing at the dial gate (reachable only by
+    Disconnect-before-Connect, see `stopped_budget`) may still get the transport of the dial in flight.
+    This is the original statement with `.idle` removed, `.up` and `.dialGate` added and no
+    restriction on `evs'`. -/
 theorem no_dial_after_disconnect (s : Script) (evs' : List Ev) : let w := exec s
-    w.stopped = true → (w.phase = .exited ∨ ∃ k, w.phase = .connackGate k ∨ w.phase = .up k) →
-    (w.phase = .exited ∨ ∀ e ∈ evs', e ≠ .connackRefused ∧ e ≠ .connackNever) →
-      (evs'.foldl step w).dials = w.dials ∧ (evs'.foldl step w).conns.length = w.conns.length := by
-  intro w hs hp hev
-  rcases hev with he | hev
-  · exact (exited_foldl evs' w he).2
-  · refine (SInv.foldl evs' ?_ w ⟨hs, hp⟩).2
-    intro e he hf
-    have := hev e he
-    cases e <;> simp_all [Ev.connackFails]
+    w.stopped = true → w.phase ≠ .idle →
+      (evs'.foldl step w).dials = w.dials ∧
+      (w.phase ≠ .dialGate → (evs'.foldl step w).conns.length = w.conns.length) ∧
+      w.conns.length ≤ (evs'.foldl step w).conns.length ∧
+      (evs'.foldl step w).conns.length ≤ w.conns.length + 1 := by
+  intro w hs hp
+  obtain ⟨_, h2, h3, h4, h5⟩ := stopped_budget w evs' hs
+  have hd : dialBudget w.phase = 0 := by
+    cases hph : w.phase <;> first | rfl | exact absurd hph hp
+  have hc : connBudget w.phase ≤ 1 := by cases w.phase <;> simp [connBudget]
+  refine ⟨by omega, ?_, h4, by omega⟩
+  intro hng
+  have hc0 : connBudget w.phase = 0 := by
+    cases hph : w.phase <;> first | rfl | exact absurd hph hp | exact absurd hph hng
+  omega
 
-/-- the same for an arbitrary (not necessarily reachable) world, with the phase kept in range -/
+/-- the same in the phases named in the task (`.exited`, `.connackGate k`) and `.up k`: plain equality,
+    no hypothesis on the later events -/
 theorem no_dial_while_stopped (w : World) (evs' : List Ev) (hs : w.stopped = true)
-    (hp : w.phase = .exited ∨ ∃ k, w.phase = .connackGate k ∨ w.phase = .up k)
-    (hev : ∀ e ∈ evs', e ≠ .connackRefused ∧ e ≠ .connackNever) : let w' := evs'.foldl step w
-    w'.stopped = true ∧ (w'.phase = .exited ∨ ∃ k, w'.phase = .connackGate k ∨ w'.phase = .up k) ∧
-      w'.dials = w.dials ∧ w'.conns.length = w.conns.length := by
-  have := SInv.foldl evs' (fun e he hf => by
-    have := hev e he
-    cases e <;> simp_all [Ev.connackFails]) w ⟨hs, hp⟩
-  exact ⟨this.1.1, this.1.2, this.2.1, this.2.2⟩
+    (hp : w.phase = .exited ∨ ∃ k, w.phase = .connackGate k ∨ w.phase = .up k) : let w' := evs'.foldl step w
+    w'.stopped = true ∧ w'.dials = w.dials ∧ w'.conns.length = w.conns.length := by
+  obtain ⟨h1, h2, h3, h4, h5⟩ := stopped_budget w evs' hs
+  have hb : dialBudget w.phase = 0 ∧ connBudget w.phase = 0 := by
+    rcases hp with h | ⟨k, h | h⟩ <;> rw [h] <;> exact ⟨rfl, rfl⟩
+  exact ⟨h1, by omega, by omega⟩
 
-/-- Disconnect before `Connect` (phase `.idle`): nothing happens until the application calls Connect -/
+/-- Disconnect on a running client in ANY phase other than `.idle` (connected, dialling, waiting for
+    CONNACK, already exited), then ANY events: never another dial, never another connection.
+    Holds for every world, reachable or not. -/
+theorem disconnect_then_no_dial (w : World) (evs' : List Ev) (hs : w.stopped = false) (hp : w.phase ≠ .idle) :
+    (evs'.foldl step (step w .disconnect)).dials = w.dials ∧
+    (evs'.foldl step (step w .disconnect)).conns.length = w.conns.length := by
+  obtain ⟨h1, h2, h3, h4⟩ := disconnect_spec w hs
+  obtain ⟨_, b2, b3, b4, b5⟩ := stopped_budget (step w .disconnect) evs' h1
+  have hb : dialBudget (step w .disconnect).phase = 0 ∧ connBudget (step w .disconnect).phase = 0 := by
+    rw [h2]
+    cases hph : w.phase <;> first | exact ⟨rfl, rfl⟩ | exact absurd hph hp
+  omega
+
+/-- … in particular along any run -/
+theorem disconnect_then_no_dial_exec (s : Script) (evs' : List Ev) : let w := exec s
+    w.stopped = false → w.phase ≠ .idle →
+      (evs'.foldl step (step w .disconnect)).dials = w.dials ∧
+      (evs'.foldl step (step w .disconnect)).conns.length = w.conns.length :=
+  fun hs hp => disconnect_then_no_dial _ evs' hs hp
+
+/-- Disconnect before `Connect` (phase `.idle`): nothing happens until the application calls Connect … -/
 theorem no_dial_while_idle (w : World) (evs' : List Ev) (h : w.phase = .idle) (hev : ∀ e ∈ evs', e ≠ .start) :
     (evs'.foldl step w).phase = .idle ∧ (evs'.foldl step w).dials = w.dials ∧
       (evs'.foldl step w).conns.length = w.conns.length :=
   idle_foldl evs' hev w h
 
-/-- Disconnect while connected or dialling, then anything: no further dial, no further connection -/
-theorem disconnect_then_no_dial (s : Script) (evs' : List Ev) : let w := exec s
-    w.stopped = false → (w.phase = .dialGate ∨ ∃ k, w.phase = .up k) →
-      (evs'.foldl step (step w .disconnect)).dials = w.dials ∧
-      (evs'.foldl step (step w .disconnect)).conns.length = w.conns.length := by
-  intro w hs hp
-  obtain ⟨_, h2, h3, h4, _⟩ := disconnect_every_phase w hs
-  obtain ⟨_, e2, e3⟩ := exited_foldl evs' _ (h4 hp)
-  exact ⟨e2.trans h2, e3.trans h3⟩
+/-- … and if it does call Connect afterwards, the model (like the Go loop, whose first action is
+    `DialContext`) makes exactly that one dial attempt: at most one dial, at most one connection, ever.
+    (Out of scope of C09, recorded for completeness; see `demoIdle*` below for what then happens:
+    a dial error or any CONNACK outcome ends the loop.) -/
+theorem disconnect_before_connect (w : World) (evs' : List Ev) (hs : w.stopped = false) (hp : w.phase = .idle) :
+    (evs'.foldl step (step w .disconnect)).dials ≤ w.dials + 1 ∧
+    (evs'.foldl step (step w .disconnect)).conns.length ≤ w.conns.length + 1 := by
+  obtain ⟨h1, h2, h3, h4⟩ := disconnect_spec w hs
+  obtain ⟨_, b2, b3, b4, b5⟩ := stopped_budget (step w .disconnect) evs' h1
+  have hb : dialBudget (step w .disconnect).phase = 1 ∧ connBudget (step w .disconnect).phase = 1 := by
+    rw [h2, hp]; exact ⟨rfl, rfl⟩
+  omega
 
 /-! ### non-vacuity -/
 
@@ -273,52 +312,47 @@ example : let w := exec { demoDiscGate with evs := demoDiscGate.evs.take 3 }
 example : (exec demoDiscGate).phase = .exited ∧ (exec demoDiscGate).dials = 1 ∧
     (exec demoDiscGate).conns.map (·.alive) = [false] := by decide
 
-/-! ### FINDINGS: phases in which the model still dials after Disconnect
+/-! ### Disconnect while the CONNACK is pending, which is then refused (the former counterexamples)
 
-  `connectFailed` and the `.dialFail` step never look at `stopped`: the model's loop only observes the
-  Disconnect signal in `.up` (through `loopReact`) and at the moment of the `.disconnect` event itself.
-  Consequently:
+  Before the model was refined (`connectFailed`, `.dialFail`, `.connackOk` now observe `stopped`, as the
+  `select` on `c.disconnected` in reconnclient.go does) these scripts ended with two dials / two
+  connections, resp. with a stopped client connected for good. Now the loop exits. -/
 
-  (a) Disconnect while the CONNACK is pending (`.connackGate`), followed by a refused / absent CONNACK:
-      the loop backs off and heads for the dial gate again (`dials` grows), a later `.dialOk` creates a
-      NEW connection, and if that one is accepted the stopped client ends up holding an open
-      connection for ever (`.up`, alive, `stopped = true`, the Disconnect task long gone).
-  (b) Disconnect before `Connect` (`.idle`), then `Connect`: the first dial happens (as in the Go loop,
-      whose first action is `DialContext`), but dial errors are then retried without end.
-  In reconnclient.go the `select` that follows a failed dial / Connect has a `case <-c.disconnected:
-  return`, so either the model is wrong here (missing `if w.stopped then exited` in `connectFailed` and
-  `.dialFail`) or the code is — to be settled against the Go source. -/
+def demoDiscGateRefused : Script := { evs := [.start, .dialOk 0, .disconnect, .connackRefused, .dialOk 0] }
 
-/-- (a) the prefix ends stopped in `.connackGate 0` with one dial … -/
-def cexGate : Script := { evs := [.start, .dialOk 0, .disconnect, .connackRefused, .dialOk 0] }
-
-example : let w := exec { cexGate with evs := cexGate.evs.take 3 }
+example : let w := exec { demoDiscGateRefused with evs := demoDiscGateRefused.evs.take 3 }
     w.stopped = true ∧ w.phase = .connackGate 0 ∧ w.dials = 1 ∧ w.conns.length = 1 := by decide
-/-- … and two events later there are two dials and two connections -/
-example : (exec cexGate).stopped = true ∧ (exec cexGate).dials = 2 ∧ (exec cexGate).conns.length = 2 ∧
-    (exec cexGate).phase = .connackGate 1 := by decide
-/-- so the original statement of `no_dial_after_disconnect` is false for `.connackGate` -/
+example : (exec demoDiscGateRefused).stopped = true ∧ (exec demoDiscGateRefused).dials = 1 ∧
+    (exec demoDiscGateRefused).conns.map (·.alive) = [false] ∧ (exec demoDiscGateRefused).waits = [] ∧
+    (exec demoDiscGateRefused).phase = .exited := by decide
+
+def demoDiscGateLong : Script :=
+  { evs := [.start, .dialOk 0, .disconnect, .connackNever, .dialFail, .dialFail, .dialOk 0, .connackOk false []] }
+
+example : (exec demoDiscGateLong).stopped = true ∧ (exec demoDiscGateLong).phase = .exited ∧
+    (exec demoDiscGateLong).dials = 1 ∧ (exec demoDiscGateLong).conns.map (·.alive) = [false] ∧
+    (exec demoDiscGateLong).taskQ = [] := by decide
+
+/-! ### Disconnect before Connect (`.idle`, out of scope): one dial, then the loop exits -/
+
+def demoIdleFail : Script := { evs := [.disconnect, .start, .dialFail, .dialFail, .dialOk 0] }
+
+example : let w := exec { demoIdleFail with evs := demoIdleFail.evs.take 1 }
+    w.stopped = true ∧ w.phase = .idle ∧ w.dials = 0 := by decide
+example : (exec demoIdleFail).stopped = true ∧ (exec demoIdleFail).dials = 1 ∧
+    (exec demoIdleFail).conns.length = 0 ∧ (exec demoIdleFail).phase = .exited := by decide
+
+def demoIdleOk : Script := { evs := [.disconnect, .start, .dialOk 0, .connackOk false [], .dialOk 1, .dialFail] }
+
+example : (exec demoIdleOk).stopped = true ∧ (exec demoIdleOk).dials = 1 ∧
+    (exec demoIdleOk).conns.map (·.alive) = [false] ∧ (exec demoIdleOk).phase = .exited := by decide
+/-- so the original statement of `no_dial_after_disconnect` stays false for `.idle` (and only there) -/
 example : ¬ (∀ (s : Script) (evs' : List Ev), let w := exec s
     w.stopped = true → (w.phase = .exited ∨ w.phase = .idle ∨ ∃ k, w.phase = .connackGate k) →
       (evs'.foldl step w).dials = w.dials ∧ (evs'.foldl step w).conns.length = w.conns.length) := by
   intro h
-  have := h { cexGate with evs := cexGate.evs.take 3 } [.connackRefused, .dialOk 0]
-    (by decide) (Or.inr (Or.inr ⟨0, by decide⟩))
+  have := h { evs := [.disconnect] } [.start] (by decide) (Or.inr (Or.inl (by decide)))
   revert this
   decide
-
-/-- (a') it can even end with a stopped client that is connected for good -/
-def cexGateUp : Script :=
-  { evs := [.start, .dialOk 0, .disconnect, .connackRefused, .dialFail, .dialFail, .dialOk 0, .connackOk false []] }
-
-example : (exec cexGateUp).stopped = true ∧ (exec cexGateUp).phase = .up 1 ∧ (exec cexGateUp).dials = 4 ∧
-    (exec cexGateUp).conns.map (·.alive) = [false, true] ∧ (exec cexGateUp).taskQ = [] := by decide
-
-/-- (b) Disconnect before Connect, then Connect: three dials -/
-def cexIdle : Script := { evs := [.disconnect, .start, .dialFail, .dialFail, .dialOk 0] }
-
-example : let w := exec { cexIdle with evs := cexIdle.evs.take 1 }
-    w.stopped = true ∧ w.phase = .idle ∧ w.dials = 0 := by decide
-example : (exec cexIdle).stopped = true ∧ (exec cexIdle).dials = 3 ∧ (exec cexIdle).conns.length = 1 := by decide
 
 end Mqtt.C09
